@@ -98,6 +98,11 @@ def bi(x) -> str:
     return "1" if x else "0"
 
 
+def game_call(agent, t: int):
+    """Call `get_action` the way `PrimaiteGame.apply_agent_actions` does (`Gen.Agents.gameGetActionCall`)."""
+    return agent.get_action(None, timestep=t)
+
+
 # ================================================================================================ periodic / dm
 def gen_periodic(rng: Rng, malformed: bool = False) -> dict:
     kind = rng.choice(["periodic", "periodic", "dm"])
@@ -164,7 +169,7 @@ def run_periodic(case: dict) -> Tuple[List[str], List[str]]:
             d = pr.fresh(case["v"])
             d.sched, d.k = [dd], k
             try:
-                act, par = agent.get_action(None, t)
+                act, par = game_call(agent, t)
             except Exception:
                 dead = True
                 out.append("raised")
@@ -249,7 +254,7 @@ def run_prob(case: dict) -> Tuple[List[str], List[str], List[str]]:
             out.append("rejected")
             continue
         try:
-            act, par = agent.get_action(None, 0)
+            act, par = game_call(agent, 0)
             out.append(f"chose {int(par['node_name'][1:])}")
         except Exception:
             out.append("raised")
@@ -379,7 +384,7 @@ def _state(agent) -> str:
             f"{bi(agent.actions_concluded)} {agent.next_execution_timestep}")
 
 
-def _run_tap(case: dict, cfg: dict, canon_act, make_response, sched_per_step) -> Tuple[List[str], List[str]]:
+def _run_tap(case: dict, cfg: dict, canon_act, make_response, sched_per_step, params=None) -> Tuple[List[str], List[str]]:
     from primaite.interface.request import RequestResponse
     out, problems = [], []
     v = case["v"]
@@ -402,7 +407,7 @@ def _run_tap(case: dict, cfg: dict, canon_act, make_response, sched_per_step) ->
             d = pr.fresh(v)
             d.sched, d.u, d.scan = sched_per_step(st), st["u"][0] / st["u"][1], st.get("dScan", 0)
             try:
-                act, par = agent.get_action(None, t)
+                act, par = game_call(agent, t)
             except Exception:
                 if os.environ.get("C19_DEBUG"):
                     import traceback
@@ -416,6 +421,9 @@ def _run_tap(case: dict, cfg: dict, canon_act, make_response, sched_per_step) ->
             for c in d.calls:
                 if c[0] == "randint" and (c[1], c[2]) not in ((-v, v), (0, case.get("nAddr", 1) - 1)):
                     problems.append(f"step {t}: draw range {c} is neither the schedule's (-{v},{v}) nor the scan's")
+            if params is not None:
+                prev = case["steps"][t - 1]["resp"]["status"] if t else None
+                problems += ["params: " + p for p in params.check(agent, t, act, par, prev)]
             try:
                 req = agent.format_request(act, par)
             except Exception as e:
@@ -428,8 +436,146 @@ def _run_tap(case: dict, cfg: dict, canon_act, make_response, sched_per_step) ->
     return out, problems
 
 
+def expected_params1(case: dict, agent, act: str, par: dict) -> Optional[dict]:
+    """Parameter oracle for TAP001 (independent reading of `Tap1.actionParams`): the full parameter dict an action must
+    carry, computed from the configuration of the case; node and scan target are taken from the action itself (they are
+    compared with the model through the canonical line)."""
+    kc = tap1_cfg(case)["agent_settings"]["kill_chain"]
+    c2, pay = kc["COMMAND_AND_CONTROL"], kc["PAYLOAD"]
+    node = par.get("node_name", par.get("source_node"))
+    if act == "node-folder-create":
+        return {"node_name": node, "folder_name": "downloads"}
+    if act == "node-file-create":
+        return {"node_name": node, "folder_name": "downloads", "file_name": "malware_dropper.ps1", "force": True}
+    if act == "node-file-access":
+        return {"node_name": node, "folder_name": "downloads", "file_name": "malware_dropper.ps1"}
+    if act in ("node-application-install", "node-application-execute"):
+        return {"node_name": node, "application_name": par.get("application_name")}      # name is part of the canonical line
+    if act in ("node-nmap-ping-scan", "node-nmap-port-scan"):
+        return {"source_node": node, "target_ip_address": par.get("target_ip_address"), "show": False}
+    if act == "node-network-service-recon":
+        from primaite.utils.validation.ip_protocol import PROTOCOL_LOOKUP
+        from primaite.utils.validation.port import PORT_LOOKUP
+        return {"source_node": node, "target_ip_address": par.get("target_ip_address"), "target_port": PORT_LOOKUP["POSTGRES_SERVER"],
+                "target_protocol": PROTOCOL_LOOKUP["TCP"], "show": False}
+    if act == "configure-c2-beacon":
+        from primaite.utils.validation.ip_protocol import PROTOCOL_LOOKUP
+        from primaite.utils.validation.port import PORT_LOOKUP
+        # the settings schema stores port / protocol names as their validated values
+        return {"node_name": node, "c2_server_ip_address": c2["c2_server_ip"], "keep_alive_frequency": c2["keep_alive_frequency"],
+                "masquerade_port": PORT_LOOKUP[c2["masquerade_port"]], "masquerade_protocol": PROTOCOL_LOOKUP[c2["masquerade_protocol"]]}
+    if act == "c2-server-ransomware-configure":
+        return {"node_name": node, "server_ip_address": TARGET_IP, "payload": "ENCRYPT"}
+    if act == "c2-server-data-exfiltrate":
+        return {"node_name": node, "target_file_name": "database.db", "target_folder_name": "database",
+                "exfiltration_folder_name": pay["exfiltration_folder_name"], "target_ip_address": TARGET_IP,
+                "username": pay["target_username"], "password": pay["target_password"]}
+    if act == "c2-server-ransomware-launch":
+        return {"node_name": node}
+    return None
+
+
+def _same(a, b) -> bool:
+    """Equality up to the `str()` of address objects."""
+    if isinstance(a, dict) and isinstance(b, dict):
+        return a.keys() == b.keys() and all(_same(a[k], b[k]) for k in a)
+    if isinstance(a, (list, tuple)) and isinstance(b, (list, tuple)):
+        return len(a) == len(b) and all(_same(x, y) for x, y in zip(a, b))
+    return a == b or (not isinstance(a, bool) and not isinstance(b, bool) and str(a) == str(b))
+
+
+class Params1:
+    def __init__(self, case):
+        self.case = case
+
+    def check(self, agent, t, act, par, status_prev) -> List[str]:
+        if act == "do-nothing":
+            return []
+        want = expected_params1(self.case, agent, act, par)
+        if want is None:
+            return [f"step {t}: action {act} is not one TAP001 is configured to use"]
+        if not _same(par, want):
+            return [f"step {t}: parameters of {act} are {par}, the settings say {want}"]
+        return []
+
+
+class Params3:
+    """Parameter oracle for TAP003 (independent reading of `Tap3.actionParams`).  Tracks what the agent may know: the
+    configured credentials, overwritten by every password change it sent that the simulator answered with success; the
+    account changes are consumed in configured order, one per password-change action."""
+
+    def __init__(self, case):
+        self.case = case
+        st = tap3_cfg(case)["agent_settings"]["kill_chain"]
+        self.know = copy.deepcopy(st["PLANNING"]["starting_network_knowledge"]["credentials"])
+        self.changes = st["MANIPULATION"]["account_changes"]
+        self.acls = st["EXPLOIT"]["malicious_acls"]
+        self.j = 0
+        self.pending = None          # (host, credentials-to-be) of the password change sent in the previous step
+        self.last = None             # (last non-idle action, its pending update)
+
+    def check(self, agent, t, act, par, status_prev) -> List[str]:
+        if self.pending is not None:
+            if status_prev == "success":
+                self.know[self.pending[0]] = self.pending[1]
+            self.pending = None
+        if act == "do-nothing":
+            return []
+        if self.last is not None and self.last[0] == (act, par):
+            # the repeat-previous-action branch re-issues the last action unchanged after a failed response
+            self.pending = self.last[1]
+            return []
+        bad_out = self._check(t, act, par)
+        self.last = ((act, copy.deepcopy(par)), self.pending)
+        return bad_out
+
+    def _check(self, t, act, par) -> List[str]:
+        start = _h(0)
+        host_of_ip = {str(v.get("ip_address")): h for h, v in self.know.items() if "ip_address" in v}
+        if act == "node-account-change-password":
+            if self.j >= len(self.changes):
+                return [f"step {t}: password change no. {self.j + 1} but only {len(self.changes)} account changes are configured"]
+            ac = self.changes[self.j]
+            self.j += 1
+            want = {"node_name": start, "username": ac["username"], "current_password": self.know.get(start, {}).get("password"),
+                    "new_password": ac["new_password"]}
+            self.pending = (start, {"username": ac["username"], "password": ac["new_password"]})
+            bad = ac["host"] != start
+        elif act == "node-session-remote-login":
+            h = host_of_ip.get(str(par.get("remote_ip")))
+            k = self.know.get(h, {})
+            want = {"node_name": start, "username": k.get("username"), "password": k.get("password"), "remote_ip": k.get("ip_address")}
+            bad = h is None
+        elif act == "node-send-remote-command" and len(par.get("command", [])) > 2 and par["command"][2] == "change_password":
+            if self.j >= len(self.changes):
+                return [f"step {t}: password change no. {self.j + 1} but only {len(self.changes)} account changes are configured"]
+            ac = self.changes[self.j]
+            self.j += 1
+            h = ac["host"]
+            k = self.know.get(h, {})
+            want = {"node_name": start, "remote_ip": k.get("ip_address"),
+                    "command": ["service", "user-manager", "change_password", ac["username"], k.get("password"), ac["new_password"]]}
+            self.pending = (h, {"ip_address": k.get("ip_address"), "username": ac["username"], "password": ac["new_password"]})
+            bad = False
+        elif act == "node-send-remote-command":
+            h = host_of_ip.get(str(par.get("remote_ip")))
+            from primaite.utils.validation.port import PORT_LOOKUP
+            pt = lambda x: PORT_LOOKUP.get(x, x) if isinstance(x, str) else x  # noqa: E731  (the schema stores validated port values)
+            cands = [["acl", "add_rule", a["permission"], a["protocol_name"], str(a["src_ip"]), str(a["src_wildcard"]), pt(a["src_port"]),
+                      str(a["dst_ip"]), str(a["dst_wildcard"]), pt(a["dst_port"]), a["position"]] for a in self.acls if a["target_router"] == h]
+            cmd = par.get("command")
+            want = {"node_name": start, "remote_ip": self.know.get(h, {}).get("ip_address"),
+                    "command": next((c for c in cands if _same(c, cmd)), cands[0] if cands else None)}
+            bad = h is None
+        else:
+            return [f"step {t}: action {act} is not one TAP003 is configured to use"]
+        if bad or not _same(par, want):
+            return [f"step {t}: parameters of {act} are {par}, the settings (and the password changes sent so far) say {want}"]
+        return []
+
+
 def run_tap1(case: dict) -> Tuple[List[str], List[str]]:
-    return _run_tap(case, tap1_cfg(case), _canon_act1, lambda agent, r: _data1(r), lambda st: [st["d1"], st["d2"]])
+    return _run_tap(case, tap1_cfg(case), _canon_act1, lambda agent, r: _data1(r), lambda st: [st["d1"], st["d2"]], Params1(case))
 
 
 def lines_tap1(case: dict) -> List[str]:
@@ -485,11 +631,12 @@ def tap3_cfg(case: dict) -> dict:
     fl = lambda p: p[0] / p[1]  # noqa: E731
     creds = {}
     for h, has_ip in case["creds"]:
-        creds[_h(h)] = {"username": "admin", "password": f"pw{h}"}
+        creds[_h(h)] = {"username": f"user{h}", "password": f"pw{h}"}
         if has_ip:
             creds[_h(h)]["ip_address"] = _ip(h)
-    acl = lambda r, pos: {"target_router": _h(r), "position": pos, "permission": "DENY", "src_ip": "ALL", "src_wildcard": "NONE",  # noqa: E731
-                          "dst_ip": "ALL", "dst_wildcard": "NONE", "src_port": "ALL", "dst_port": "ALL", "protocol_name": "ALL"}
+    acl = lambda r, pos: {"target_router": _h(r), "position": pos, "permission": ["DENY", "PERMIT"][pos % 2],  # noqa: E731
+                          "src_ip": f"10.7.{pos}.0", "src_wildcard": "0.0.0.255", "dst_ip": "ALL", "dst_wildcard": "NONE",
+                          "src_port": "ALL", "dst_port": ["HTTP", "DNS", "ALL"][pos % 3], "protocol_name": ["tcp", "udp", "ALL"][pos % 3]}
     return {"ref": "insider", "team": "RED", "type": "tap-003", "agent_settings": {
         "start_step": case["start"], "frequency": case["f"], "variance": case["v"], "repeat_kill_chain": case["rkc"],
         "repeat_kill_chain_stages": case["rs"], "default_starting_node": _h(0), "starting_nodes": [],
@@ -497,7 +644,7 @@ def tap3_cfg(case: dict) -> dict:
             "PLANNING": {"probability": fl(case["pPl"]), "starting_network_knowledge": {"credentials": creds}},
             "ACCESS": {"probability": fl(case["pAc"])},
             "MANIPULATION": {"probability": fl(case["pMa"]),
-                             "account_changes": [{"host": _h(h), "username": "admin", "new_password": f"new{j}"}
+                             "account_changes": [{"host": _h(h), "username": f"acct{j}", "new_password": f"new{j}"}
                                                  for j, h in enumerate(case["accts"])]},
             "EXPLOIT": {"probability": fl(case.get("pEx", (1, 1))), "malicious_acls": [acl(r, j + 1) for j, r in enumerate(case["acls"])]}}}}
 
@@ -529,23 +676,69 @@ def run_tap3(case: dict) -> Tuple[List[str], List[str]]:
             d["ip_address"] = "10.9.9.9"
             d["username"] = "admin"
         return d
-    return _run_tap(case, tap3_cfg(case), _canon_act3, resp, lambda st: [st["d1"]])
+    return _run_tap(case, tap3_cfg(case), _canon_act3, resp, lambda st: [st["d1"]], Params3(case))
 
 
 def lines_tap3(case: dict) -> List[str]:
     c = case
     csv = lambda xs: ",".join(str(x) for x in xs) or "-"  # noqa: E731
     ls = [f"t3-init {c['start']} {c['f']} {c['v']} {bi(c['rkc'])} {bi(c['rs'])} {c['pPl'][0]} {c['pPl'][1]} {c['pAc'][0]} {c['pAc'][1]} "
-          f"{c['pMa'][0]} {c['pMa'][1]} 0 {csv(c['accts'])} {csv(c['acls'])} {','.join(f'{h}:{ip}' for h, ip in c['creds']) or '-'} {c['d0']}"]
+          f"{c['pMa'][0]} {c['pMa'][1]} {c.get('pEx', (1, 1))[0]} {c.get('pEx', (1, 1))[1]} 0 {csv(c['accts'])} {csv(c['acls'])} {','.join(f'{h}:{ip}' for h, ip in c['creds']) or '-'} {c['d0']}"]
     for t, st in enumerate(case["steps"]):
         r = st["resp"]
         ls.append(f"t3-step {t} {st['d1']} {st['u'][0]} {st['u'][1]} {bi(r['ok'])} {bi(r['hasReason'])} {bi(r['hasLoginData'])}")
     return ls
 
 
+# ================================================================================================ RandomAgent
+def gen_rand(rng: Rng, malformed: bool = False) -> dict:
+    n = rng.range(1, 6)
+    if malformed:
+        n = 0
+    return {"agent": "rand", "n": n, "ks": [rng.below(max(n, 1)) for _ in range(rng.range(3, 12))]}
+
+
+def run_rand(case: dict) -> Tuple[List[str], List[str], List[str]]:
+    """RandomAgent through the game's calling convention; the integer `Discrete.sample()` returns is prescribed (and the
+    size of the space it is asked of is recorded)."""
+    from gymnasium import spaces
+    n = case["n"]
+    amap = {i: {"action": "node-shutdown", "options": {"node_name": f"n{i}"}} for i in range(n)}
+    out, lines, problems = [], [], []
+    try:
+        agent = _agent_from({"ref": "r", "team": "GREEN", "type": "random-agent", "action_space": {"action_map": amap}})
+    except Exception:
+        agent = None
+    saved = spaces.Discrete.sample
+    cur = {"k": 0}
+
+    def sample(self, mask=None, probability=None):
+        if int(self.n) != n:
+            problems.append(f"sample() asked of Discrete({self.n}), the action map has {n} entries")
+        return cur["k"]
+    spaces.Discrete.sample = sample
+    try:
+        for t, k in enumerate(case["ks"]):
+            lines.append(f"rand {n} {k}")
+            if agent is None:
+                out.append("rejected")
+                continue
+            cur["k"] = k
+            try:
+                act, par = game_call(agent, t)
+            except Exception:
+                out.append("raised")
+                continue
+            hit = [i for i, v in amap.items() if (act, par) == (v["action"], v["options"])]
+            out.append(f"chose {hit[0]}" if hit else f"outside-action-map:{act}:{par}")
+    finally:
+        spaces.Discrete.sample = saved
+    return out, lines, problems
+
+
 # ================================================================================================ dispatch
 def gen_case(rng: Rng, kind: str, malformed: bool = False) -> dict:
-    return {"periodic": gen_periodic, "prob": gen_prob, "tap1": gen_tap1, "tap3": gen_tap3}[kind](rng, malformed)
+    return {"periodic": gen_periodic, "prob": gen_prob, "tap1": gen_tap1, "tap3": gen_tap3, "rand": gen_rand}[kind](rng, malformed)
 
 
 def kind_of(case: dict) -> str:
@@ -561,6 +754,8 @@ def run_impl(case: dict) -> Tuple[List[str], List[str], List[str]]:
         return o, lines_periodic(case), p
     if k == "prob":
         return run_prob(case)
+    if k == "rand":
+        return run_rand(case)
     if k == "tap1":
         o, p = run_tap1(case)
         return o, lines_tap1(case), p
